@@ -212,8 +212,9 @@ func (fr *Frame) intercept(st *State, fn *ssa.Function, pkg string, args []Val, 
 			ex.set(st, "FileClosed", Store(fc, f, TFalse))
 		}
 		return Val{Tup: []Val{{T: f}, {T: e}}}, true
-	case "github.com/hashicorp/serf/serf.EventType.String":
-		// the name of an event kind: a pure function of the kind (the serf package is outside the agent's scope)
+	case "github.com/hashicorp/serf/serf.EventType.String", "github.com/hashicorp/serf/serf.MemberStatus.String":
+		// the name of an event kind / member status: a pure function of the value (the serf package is outside the
+		// agent's scope)
 		if !ex.w.inScope(pkg) {
 			return fr.pureCall(st, fn, full, args), true
 		}
@@ -238,6 +239,27 @@ func (fr *Frame) intercept(st *State, fn *ssa.Function, pkg string, args []Val, 
 		ex.set(st, "AtomicValue", Store(h, args[0].T, args[1].T))
 		return Val{}, true
 	case "fmt.Sprintf", "fmt.Sprint", "fmt.Sprintln":
+		if name == "Sprintf" && len(args) == 2 && args[0].T != nil {
+			// formatting strings, integers and booleans depends on nothing but their values: a function of the format
+			// and the operands (uninterpreted: nothing is assumed about what the text looks like)
+			if ops, ok := variadicBasicOperands(instr); ok {
+				ex.trusted["fmt.Sprintf with only string/integer/boolean operands: an uninterpreted function of the format and the operands"] = true
+				ts := []*Term{args[0].T}
+				uf := "uf.sprintf"
+				for _, o := range ops {
+					v := fr.val(st, o)
+					if v.T == nil {
+						ts = nil
+						break
+					}
+					ts = append(ts, v.T)
+					uf += "." + sanitize(string(v.T.Sort))
+				}
+				if ts != nil {
+					return Val{T: ex.ctx.UF(uf, SStr, ts...)}, true
+				}
+			}
+		}
 		ex.trusted["fmt.Sprint*: returns an arbitrary string"] = true
 		v := ex.ctx.Fresh("sprintf", SStr)
 		return Val{T: v}, true
@@ -842,4 +864,75 @@ func (ex *Exec) streamDecodeTerms(st *State, dec *Term, t types.Type) (*Term, *T
 	ok := ex.ctx.UF("sdec_ok_"+tn, SBool, dec, cnt)
 	val := ex.ctx.UF("sdec_"+tn, ex.ctx.SortOf(t), dec, cnt)
 	return ok, val
+}
+
+// variadicBasicOperands returns the operands of a variadic call `f(fixed, xs...)` whose variadic slice is built in
+// place from values of basic type (string, integer, boolean) boxed into `any` -- the only shape for which the
+// formatted text is a function of the operand values alone.
+func variadicBasicOperands(instr ssa.Instruction) ([]ssa.Value, bool) {
+	call, ok := instr.(ssa.CallInstruction)
+	if !ok {
+		return nil, false
+	}
+	a := call.Common().Args
+	if len(a) == 0 {
+		return nil, false
+	}
+	last := a[len(a)-1]
+	if c, ok := last.(*ssa.Const); ok && c.Value == nil {
+		return nil, true // no operands
+	}
+	sl, ok := last.(*ssa.Slice)
+	if !ok || sl.Low != nil || sl.High != nil {
+		return nil, false
+	}
+	al, ok := sl.X.(*ssa.Alloc)
+	if !ok {
+		return nil, false
+	}
+	arr, ok := al.Type().Underlying().(*types.Pointer).Elem().Underlying().(*types.Array)
+	if !ok {
+		return nil, false
+	}
+	ops := make([]ssa.Value, arr.Len())
+	for _, r := range *al.Referrers() {
+		switch x := r.(type) {
+		case *ssa.Slice:
+			if x != sl {
+				return nil, false
+			}
+		case *ssa.IndexAddr:
+			ic, ok := x.Index.(*ssa.Const)
+			if !ok || ic.Value == nil {
+				return nil, false
+			}
+			i := int(ic.Int64())
+			for _, rr := range *x.Referrers() {
+				st, ok := rr.(*ssa.Store)
+				if !ok || st.Addr != x || i < 0 || i >= len(ops) || ops[i] != nil {
+					return nil, false
+				}
+				mi, ok := st.Val.(*ssa.MakeInterface)
+				if !ok {
+					return nil, false
+				}
+				b, ok := mi.X.Type().Underlying().(*types.Basic)
+				if !ok || b.Info()&(types.IsString|types.IsInteger|types.IsBoolean) == 0 {
+					return nil, false
+				}
+				if n, isNamed := mi.X.Type().(*types.Named); isNamed && n.NumMethods() > 0 {
+					return nil, false // a String/Format/Error method decides the text
+				}
+				ops[i] = mi.X
+			}
+		default:
+			return nil, false
+		}
+	}
+	for _, o := range ops {
+		if o == nil {
+			return nil, false
+		}
+	}
+	return ops, true
 }
